@@ -118,7 +118,7 @@ def gen_cases(ctx):
 
 
 def run(ctx):
-    cw.standard_check(ctx, gen_cases(ctx), PROP, KINDS, "runner.hooks", monitor)
+    cw.standard_check(ctx, cw.corpus_cases(PROP) + gen_cases(ctx), PROP, KINDS, "runner.hooks", monitor)
     proto_check(ctx)
 
 
